@@ -115,14 +115,6 @@ Proof. induction es; intros; simpl; ext_go. apply IHes; assumption. Qed.
 Lemma ev_test_ext : forall st0 st sc c, ext st0 st -> ext st0 (snd (ev_test m ev st sc c)).
 Proof. intros; unfold ev_test; ext_go. Qed.
 
-Lemma ev_progn_ext : forall es st0 st sc, ext st0 st -> ext st0 (snd (ev_progn m ev st sc es)).
-Proof.
-  induction es as [|e es IH]; intros; [simpl; assumption|].
-  destruct es as [|e' es']; [simpl; ext_go|].
-  change (ev_progn m ev st sc (e :: e' :: es')) with
-      (bind (ev st sc e) (fun v st1 => bindo (arg_red m v) st1 (fun _ => ev_progn m ev st1 sc (e' :: es')))).
-  ext_go. apply IH; assumption.
-Qed.
 Lemma ev_cond_ext : forall cls st0 st sc, ext st0 st -> ext st0 (snd (ev_cond m ev st sc cls)).
 Proof.
   induction cls as [|[c body] cls IH]; intros; simpl; ext_go.
@@ -196,7 +188,6 @@ Ltac ext_h :=
   | |- ext _ (snd (ev_args _ _ _ _ _)) => apply ev_args_ext
   | |- ext _ (snd (ev_inits _ _ _ _ _)) => apply ev_inits_ext
   | |- ext _ (snd (ev_test _ _ _ _ _)) => apply ev_test_ext
-  | |- ext _ (snd (ev_progn _ _ _ _ _)) => apply ev_progn_ext
   | |- ext _ (snd (ev_cond _ _ _ _ _)) => apply ev_cond_ext
   | |- ext _ (snd (ev_and _ _ _ _ _)) => apply ev_and_ext
   | |- ext _ (snd (ev_or _ _ _ _ _)) => apply ev_or_ext
